@@ -1,24 +1,97 @@
 // C06 — the one place where tlx is called (included by the per-type TUs).
+// Every public spelling of the sort is reachable from here (selected by Params::entry / nargs / mwmsa_default_spelled /
+// cmp_cat / threads_arg; the defaults give the 5-argument call the targets mergesort, mergesort_scale and
+// mergesort_iters have always made). All spellings with the same (iterator, comparator) types share one instantiation
+// of tlx::parallel_mergesort_base<Stable, It, Cmp>, so the extra forms cost (almost) no compile time.
 #pragma once
 #include "C06_common.hpp"
 
 #include <tlx/sort/parallel_mergesort.hpp>
 
+#include <thread>
+#include <utility>
+
 namespace c06 {
+
+//! hook: is the CALLER's comparator object still what it was after the sort returned? (overloaded for comparators that
+//! own state, C06_types_iters.hpp; the sort takes its comparator by value, so the caller's lvalue must be untouched)
+template <class C>
+inline void comparator_intact_after(const C&) {}
+
+inline size_t threads_argument(const Params& p) { return p.threads_arg ? p.threads_arg : (size_t)p.threads; }
+
+inline void check_form_preconditions(const Params& p) {
+    // the generator must have made the case consistent with what the defaulted arguments mean
+    if (p.nargs < 5 && p.sampling) pbt::fail("C06/harness", "defaulted mwmsa means MWMSA_DEFAULT == MWMSA_EXACT");
+    if (p.nargs < 4 && (p.threads_arg != 0 || p.threads != std::thread::hardware_concurrency() || p.threads == 0))
+        pbt::fail("C06/harness", "defaulted num_threads means std::thread::hardware_concurrency()");
+    if (p.nargs < 2 || p.nargs > 5 || p.entry > 1 || (p.entry == 1 && p.nargs == 2)) pbt::fail("C06/harness", "no such call form");
+    static_assert(tlx::MWMSA_DEFAULT == tlx::MWMSA_EXACT, "documented default splitting is exact");
+}
+
+//! one call; the comparator keeps the value category it has at the call site (the tlx parameter is by value:
+//! Comparator is deduced as the decayed type for every category)
+template <class It, class C>
+void call_form(const Params& p, It b, It e, C&& c) {
+    check_form_preconditions(p);
+    const size_t t = threads_argument(p);
+    const tlx::MultiwayMergeSplittingAlgorithm a = p.sampling ? tlx::MWMSA_SAMPLING : p.mwmsa_default_spelled ? tlx::MWMSA_DEFAULT : tlx::MWMSA_EXACT;
+    if (p.entry == 0) {
+        if (p.stable) {
+            if (p.nargs == 5) tlx::stable_parallel_mergesort(b, e, std::forward<C>(c), t, a);
+            else if (p.nargs == 4) tlx::stable_parallel_mergesort(b, e, std::forward<C>(c), t);
+            else tlx::stable_parallel_mergesort(b, e, std::forward<C>(c));
+        } else {
+            if (p.nargs == 5) tlx::parallel_mergesort(b, e, std::forward<C>(c), t, a);
+            else if (p.nargs == 4) tlx::parallel_mergesort(b, e, std::forward<C>(c), t);
+            else tlx::parallel_mergesort(b, e, std::forward<C>(c));
+        }
+    } else {
+        if (p.stable) {
+            if (p.nargs == 5) tlx::parallel_mergesort_base<true>(b, e, std::forward<C>(c), t, a);
+            else if (p.nargs == 4) tlx::parallel_mergesort_base<true>(b, e, std::forward<C>(c), t);
+            else tlx::parallel_mergesort_base<true>(b, e, std::forward<C>(c));
+        } else {
+            if (p.nargs == 5) tlx::parallel_mergesort_base<false>(b, e, std::forward<C>(c), t, a);
+            else if (p.nargs == 4) tlx::parallel_mergesort_base<false>(b, e, std::forward<C>(c), t);
+            else tlx::parallel_mergesort_base<false>(b, e, std::forward<C>(c));
+        }
+    }
+}
+
+//! the call on an arbitrary random-access iterator range, comparator passed in the value category Params::cmp_cat asks for
+template <class It, class Cmp>
+void run_tlx_range(const Params& p, It b, It e, Cmp cmp) {
+    switch (p.cmp_cat) {
+    case 0: call_form(p, b, e, cmp); break; // non-const lvalue
+    case 1: {
+        const Cmp& ccmp = cmp; // const lvalue
+        call_form(p, b, e, ccmp);
+        break;
+    }
+    case 2: call_form(p, b, e, Cmp(cmp)); break; // prvalue
+    default: {
+        Cmp tmp(cmp);
+        call_form(p, b, e, std::move(tmp)); // xvalue: tlx may move from it, nobody looks at tmp again
+        break;
+    }
+    }
+    comparator_intact_after(cmp); // cmp was passed as an lvalue or copied from: must be unchanged
+}
 
 template <class Vec, class Cmp>
 void run_tlx(const Params& p, Vec& v, Cmp cmp) {
-    tlx::MultiwayMergeSplittingAlgorithm a = p.sampling ? tlx::MWMSA_SAMPLING : tlx::MWMSA_EXACT;
-    if (p.stable) tlx::stable_parallel_mergesort(v.begin(), v.end(), cmp, (size_t)p.threads, a);
-    else tlx::parallel_mergesort(v.begin(), v.end(), cmp, (size_t)p.threads, a);
+    run_tlx_range(p, v.begin(), v.end(), cmp);
 }
 
-//! the same call on an arbitrary random-access iterator range
-template <class It, class Cmp>
-void run_tlx_range(const Params& p, It b, It e, Cmp cmp) {
-    tlx::MultiwayMergeSplittingAlgorithm a = p.sampling ? tlx::MWMSA_SAMPLING : tlx::MWMSA_EXACT;
-    if (p.stable) tlx::stable_parallel_mergesort(b, e, cmp, (size_t)p.threads, a);
-    else tlx::parallel_mergesort(b, e, cmp, (size_t)p.threads, a);
+//! the 2-argument form (comparator defaulted to std::less<value_type>, hardware_concurrency threads, exact splitting);
+//! only (stable_)parallel_mergesort have it
+template <class It>
+void run_tlx_default_comparator(const Params& p, It b, It e) {
+    check_form_preconditions(p);
+    if (p.nargs != 2 || p.greater) pbt::fail("C06/harness", "the defaulted comparator is std::less");
+    if (p.stable) tlx::stable_parallel_mergesort(b, e);
+    else tlx::parallel_mergesort(b, e);
 }
 
 } // namespace c06
